@@ -19,7 +19,7 @@ from .C15 import defgrad
 PROP = "C20"
 
 EVIDENCE = {
-    "probes_expected": ["frames-compared", "early-stop-file-read-back", "roundtrip-compared", "save-compared", "merged-container-read", "custom-data-compared", "fault:h5_create_fail"],
+    "probes_expected": ["frames-compared", "early-stop-file-read-back", "roundtrip-compared", "save-compared", "merged-container-read", "custom-data-compared", "fault:h5_create_fail", "fault:disk_full"],
     "components": {
         "real": ["felupe (from /repo/src)", "numpy", "scipy incl. SuperLU", "meshio writers/readers", "h5py/HDF5 on a real scratch file"],
         "simulated": ["h5py.File proxy (fails on the n-th create_dataset / on close)", "linear solver fault layer", "job callback and data callables", "clock"],
@@ -39,11 +39,13 @@ def generate(seed, tier, k):
             gen.add_faults(doc, seed, p_fault=1.0)
         elif mode == 2:
             nsub = sum(len(s["ramp"][0]["values"]) for s in doc["steps"])
-            f = r.choice(["h5_create_fail", "h5_create_fail", "h5_close_fail", "data_raise"])
+            f = r.choice(["h5_create_fail", "h5_create_fail", "h5_close_fail", "data_raise", "xml_disk_full"])
             if f == "h5_create_fail":
                 doc["faults"].append({"kind": f, "call": r.randrange(0, 2 + 5 * nsub)})
             elif f == "h5_close_fail":
                 doc["faults"].append({"kind": f})
+            elif f == "xml_disk_full":
+                doc["faults"].append({"kind": f, "at_byte": r.choice([0, 10, 100, 500, 2000])})
             else:
                 doc["faults"].append({"kind": f, "frame": r.randrange(nsub), "where": r.choice(["point", "cell"])})
         doc["c20"] = {
@@ -61,6 +63,8 @@ def generate(seed, tier, k):
     if kind == "container":
         doc["c20"]["second"] = r.choice(["same-shifted", "same-touching", "other-type"])
         doc["c20"]["decimals"] = r.choice([None, 8])
+    if kind in ("roundtrip", "save") and r.random() < 0.3:
+        doc["c20"]["disk_full_at"] = r.choice([0, 1, 17, 100, 400, 1000, 3000, 10000])
     if kind == "save":
         doc["c20"]["values_seed"] = r.randrange(1 << 30)
         doc["c20"]["with_forces"] = r.random() < 0.8
@@ -126,6 +130,74 @@ class H5Seam:
         return False
 
 
+class DiskFull:
+    """`builtins.open` seam for the pure-Python writers (vtk, vtu, XML): files opened for writing
+    raise OSError(ENOSPC) once `at_byte` bytes have been written in total (F11)."""
+
+    def __init__(self, at_byte, log):
+        import builtins
+
+        self.builtins = builtins
+        self.real = builtins.open
+        self.at = at_byte
+        self.written = 0
+        self.fired = False
+        self.log = log
+        seam = self
+
+        class Proxy:
+            def __init__(self, f):
+                object.__setattr__(self, "_f", f)
+
+            def write(self, data):
+                n = len(data)
+                if seam.written + n > seam.at:
+                    if not seam.fired:
+                        seam.fired = True
+                        seam.log.ev("fault", kind="disk_full", at=seam.at)
+                        seam.log.count("fault:disk_full")
+                    room = max(seam.at - seam.written, 0)
+                    if room:
+                        self._f.write(data[:room])  # short write, then the error
+                        seam.written += room
+                    raise SimDiskError(28, "injected: no space left on device")
+                seam.written += n
+                return self._f.write(data)
+
+            def writelines(self, lines):
+                for l in lines:
+                    self.write(l)
+
+            def __getattr__(self, name):
+                return getattr(self._f, name)
+
+            def __enter__(self):
+                self._f.__enter__()
+                return self
+
+            def __exit__(self, *a):
+                return self._f.__exit__(*a)
+
+            def __iter__(self):
+                return iter(self._f)
+
+        def sim_open(file, mode="r", *a, **k):
+            f = seam.real(file, mode, *a, **k)
+            if any(c in mode for c in "wax+") and isinstance(file, (str, bytes, os.PathLike)) and not str(file).startswith(("/dev", "/proc")):
+                return Proxy(f)
+            return f
+
+        self.sim_open = sim_open
+
+    def __enter__(self):
+        self.builtins.open = self.sim_open
+        return self
+
+    def __exit__(self, *a):
+        self.builtins.open = self.real
+        return False
+
+
 # ----------------------------------------------------------------------------------------
 # job files
 # ----------------------------------------------------------------------------------------
@@ -183,7 +255,9 @@ def run_job(doc, log):
     cell_data = {"Mean J": my_cell} if (opts.get("custom_cell") or any(f["where"] == "cell" for f in data_fault)) else None
     filename = opts.get("stem", "result") + ".xdmf"
     seam = H5Seam(dd.get("faults", []), log, eng.fired)
-    with seam, eng:
+    xmlf = [f for f in dd.get("faults", []) if f["kind"] == "xml_disk_full"]
+    dsk = DiskFull(xmlf[0]["at_byte"] if xmlf else 1 << 60, log)
+    with seam, dsk, eng:
         job, exc = eng.run_job(
             filename=filename,
             point_data=point_data,
@@ -193,6 +267,12 @@ def run_job(doc, log):
         )
     if exc is not None and not isinstance(exc, (ValueError, InjectedFault, KeyboardInterrupt)):
         raise Violation(PROP, "early-stop", f"undocumented exception {type(exc).__name__}: {exc}", site="job.exc")
+    if dsk.fired:
+        eng.fired.append({"kind": "xml_disk_full"})
+        if exc is None:
+            raise Violation(PROP, "success-implies-complete", "evaluate() returned normally although the XDMF file could not be written (disk full)", site="Job.evaluate", fault="xml_disk_full")
+        log.count("fault:xml_disk_full")
+        return eng, exc, 0
     disk_fault = [f for f in eng.fired if f["kind"] in ("h5_create_fail", "h5_close_fail")]
     if disk_fault and exc is None:
         raise Violation(PROP, "success-implies-complete", "evaluate() returned normally although writing the result file failed", site="Job.evaluate", fault=disk_fault[0]["kind"])
@@ -301,10 +381,27 @@ def run_roundtrip(doc, log):
     m = world.build_mesh(doc["mesh"])
     fmt = doc["c20"]["format"]
     name = f"mesh.{fmt}"
-    try:
-        m.write(name)
-    except KeyError as e:
-        raise Discard("format-unsupported")
+    full = doc["c20"].get("disk_full_at")
+    if full is not None and fmt in ("vtk", "vtu"):
+        with DiskFull(full, log) as dsk:
+            try:
+                m.write(name)
+                raised = None
+            except KeyError:
+                raise Discard("format-unsupported")
+            except OSError as e:
+                raised = e
+        if dsk.fired:
+            if raised is None:
+                raise Violation(PROP, "success-implies-complete", f"Mesh.write returned normally although the disk was full after {full} bytes", site=f"write.{fmt}", fault="disk_full")
+            return {"signature": f"roundtrip|{m.cell_type}|{fmt}|disk_full", "nontrivial": True, "faults_fired": ["disk_full"]}
+        if raised is not None:
+            raise raised
+    else:
+        try:
+            m.write(name)
+        except KeyError as e:
+            raise Discard("format-unsupported")
     back = fem.mesh.read(name, dim=m.dim)
     log.ev("roundtrip", fmt=fmt, cell_type=m.cell_type, points=m.points, cells=m.cells)
     if len(back.meshes) != 1:
@@ -381,12 +478,24 @@ def run_save(doc, log):
     u0 = field[0].values.copy()
     import meshio
 
-    try:
-        fem.save(region, field, forces=None if forces is None else forces.copy(), filename=name)
-    except meshio.WriteError as e:
-        if o["format"] == "vtk" and "spaces in field names" in str(e):
-            raise Discard("format-unsupported")  # legacy VTK cannot carry 'Reaction Force'; nothing is written
-        raise
+    full = o.get("disk_full_at") if o["format"] in ("vtk", "vtu") else None
+    dsk = DiskFull(full if full is not None else 1 << 60, log)
+    raised = None
+    with dsk:
+        try:
+            fem.save(region, field, forces=None if forces is None else forces.copy(), filename=name)
+        except meshio.WriteError as e:
+            if o["format"] == "vtk" and "spaces in field names" in str(e):
+                raise Discard("format-unsupported")  # legacy VTK cannot carry 'Reaction Force'; nothing is written
+            raise
+        except OSError as e:
+            raised = e
+    if dsk.fired:
+        if raised is None:
+            raise Violation(PROP, "success-implies-complete", f"save() returned normally although the disk was full after {full} bytes", site=f"save.{o['format']}", fault="disk_full")
+        return {"signature": f"save|{m.cell_type}|{o['format']}|disk_full", "nontrivial": True, "faults_fired": ["disk_full"]}
+    if raised is not None:
+        raise raised
 
     back = meshio.read(name)
     log.ev("save", fmt=o["format"], u=u0, f=forces)
